@@ -27,6 +27,7 @@ def make_classes():
             self.calls = []  # (circuit, n) as seen by the peer
             self.fail_at = None  # fail on the k-th peer invocation counted from arm time
             self.rs = 0
+            self.np_bits = False  # deliver bits as numpy integers (legal: Measurements stores what it is given)
 
         def arm(self, rs, fail_at=None):
             self.rs = rs
@@ -43,6 +44,8 @@ def make_classes():
             p = np.abs(state) ** 2
             r = random.Random(self.rs * 31 + k)
             idx = r.choices(range(len(p)), weights=[float(x) if x > 1e-14 else 0.0 for x in p], k=n_samples + self.extra)
+            if self.np_bits:
+                return Measurements([tuple(np.int8(b) for b in refmodel.bits_of(i, n)) for i in idx])
             return Measurements([refmodel.bits_of(i, n) for i in idx])
 
     class SplitSim(BaseWavefunctionSimulator):
